@@ -628,4 +628,408 @@ theorem C01_refusal_indicator_ge (b : Var) (val : Nat) (body : Lin) (rhs : Rat) 
   have : ¬ 0 < o.bigM := by grind
   simp [gIndGE, implGE, bigMLower, hinf, this]
 
+
+
+/-! ## context algebra -/
+
+theorem C01_ctx_add_comm (a b : Ctx) : a.add b = b.add a := by
+  cases a <;> cases b <;> rfl
+
+theorem C01_ctx_add_assoc (a b c : Ctx) : (a.add b).add c = a.add (b.add c) := by
+  cases a <;> cases b <;> cases c <;> rfl
+
+theorem C01_ctx_add_upper (a b : Ctx) : a ≤ a.add b ∧ b ≤ a.add b := by
+  cases a <;> cases b <;> decide
+
+/-- a merged context asks for everything each merged request asks for -/
+theorem C01_ctx_add_req (a b : Ctx) (r v : Rat) (h : req (a.add b) r v) : req a r v ∧ req b r v :=
+  ⟨req_mono (C01_ctx_add_upper a b).1 h, req_mono (C01_ctx_add_upper a b).2 h⟩
+
+theorem C01_ctx_flip_flip (c : Ctx) (h : c ≠ .none) : c.flip.flip = c := by
+  cases c <;> simp_all [Ctx.flip]
+
+/-! ## propagation into linear terms -/
+
+/-- `PropagateResult2LinTerms` is sound: if every variable's value `a v` relates to the true value
+`f v` as the assigned context requires, the body value relates as the parent context requires. -/
+theorem C01_ctx_sound_linterms (ctx : Ctx) (body : Lin) (a f : Asg)
+    (h : ∀ p ∈ propLin ctx body, req p.2 (a p.1) (f p.1)) :
+    req ctx (evalLin a body) (evalLin f body) := by
+  induction body with
+  | nil => cases ctx <;> simp [req]
+  | cons p t ih =>
+    obtain ⟨c, v⟩ := p
+    by_cases hc : c = 0
+    · subst hc
+      have := ih (by simpa [propLin] using h)
+      cases ctx <;> simp [req] at this ⊢ <;> grind
+    · have h' : ∀ p ∈ propLin ctx t, req p.2 (a p.1) (f p.1) := by
+        intro p hp; apply h; simp [propLin, hc, hp]
+      have hv : req (if 0 ≤ c then ctx.plus else ctx.flip) (a v) (f v) := by
+        have := h (v, if 0 ≤ c then ctx.plus else ctx.flip) (by simp [propLin, hc])
+        exact this
+      have iht := ih h'
+      by_cases hpos : 0 ≤ c
+      · simp only [hpos, if_true] at hv
+        cases ctx <;> simp only [req, Ctx.plus, evalLin_cons] at hv iht ⊢
+        · have := Rat.mul_le_mul_of_nonneg_left hv hpos; grind
+        · have := Rat.mul_le_mul_of_nonneg_left hv hpos; grind
+        · rw [hv, iht]
+      · simp only [hpos, if_false] at hv
+        have hneg : 0 ≤ -c := by grind
+        cases ctx <;> simp only [req, Ctx.flip, evalLin_cons] at hv iht ⊢
+        · have := Rat.mul_le_mul_of_nonneg_left hv hneg; grind
+        · have := Rat.mul_le_mul_of_nonneg_left hv hneg; grind
+        · rw [hv, iht]
+
+
+
+theorem lbGE0_dom {B : Bnds} {x : Asg} {v : Var} (h : lbGE0 (B v) = true) (hd : inDom B x v) : 0 ≤ x v := by
+  unfold lbGE0 at h
+  cases hl : (B v).lb with
+  | none => simp [hl] at h
+  | some l => simp [hl] at h; have := hd.1 l hl; grind
+
+theorem ubLE0_dom {B : Bnds} {x : Asg} {v : Var} (h : ubLE0 (B v) = true) (hd : inDom B x v) : x v ≤ 0 := by
+  unfold ubLE0 at h
+  cases hl : (B v).ub with
+  | none => simp [hl] at h
+  | some l => simp [hl] at h; have := hd.2.1 l hl; grind
+
+theorem mul_le_mul_nonneg {a1 a2 b1 b2 : Rat} (h1 : a1 ≤ b1) (h2 : a2 ≤ b2) (ha1 : 0 ≤ a1) (ha2 : 0 ≤ a2) :
+    a1 * a2 ≤ b1 * b2 := by
+  have hb1 : 0 ≤ b1 := by grind
+  have s1 : a1 * a2 ≤ b1 * a2 := Rat.mul_le_mul_of_nonneg_right h1 ha2
+  have s2 : b1 * a2 ≤ b1 * b2 := Rat.mul_le_mul_of_nonneg_left h2 hb1
+  grind
+
+/-- one product term: the context the rule hands to both factors justifies the parent context -/
+theorem prod_req (B : Bnds) (ctx : Ctx) (v w : Var) (a f : Asg)
+    (dav : inDom B a v) (daw : inDom B a w) (dfv : inDom B f v) (dfw : inDom B f w)
+    (h1 : req (quadTermCtx B ctx v w) (a v) (f v)) (h2 : req (quadTermCtx B ctx v w) (a w) (f w)) :
+    req ctx (a v * a w) (f v * f w) := by
+  unfold quadTermCtx at h1 h2
+  by_cases hP : (lbGE0 (B v) && lbGE0 (B w)) = true
+  · simp only [hP, if_true] at h1 h2
+    simp only [Bool.and_eq_true] at hP
+    have p1 := lbGE0_dom hP.1 dav
+    have p2 := lbGE0_dom hP.2 daw
+    have p3 := lbGE0_dom hP.1 dfv
+    have p4 := lbGE0_dom hP.2 dfw
+    cases ctx <;> simp only [req] at h1 h2 ⊢
+    · exact mul_le_mul_nonneg h1 h2 p1 p2
+    · exact mul_le_mul_nonneg h1 h2 p3 p4
+    · rw [h1, h2]
+  · simp only [hP, Bool.false_eq_true, if_false] at h1 h2
+    by_cases hN : (ubLE0 (B v) && ubLE0 (B w)) = true
+    · simp only [hN, if_true] at h1 h2
+      simp only [Bool.and_eq_true] at hN
+      have p1 := ubLE0_dom hN.1 dav
+      have p2 := ubLE0_dom hN.2 daw
+      have p3 := ubLE0_dom hN.1 dfv
+      have p4 := ubLE0_dom hN.2 dfw
+      cases ctx <;> simp only [req, Ctx.flip] at h1 h2 ⊢
+      · have := @mul_le_mul_nonneg (-(a v)) (-(a w)) (-(f v)) (-(f w)) (by grind) (by grind) (by grind) (by grind)
+        grind
+      · have := @mul_le_mul_nonneg (-(f v)) (-(f w)) (-(a v)) (-(a w)) (by grind) (by grind) (by grind) (by grind)
+        grind
+      · rw [h1, h2]
+    · simp only [hN, Bool.false_eq_true, if_false, req] at h1 h2
+      rw [h1, h2]
+      cases ctx <;> simp [req]
+
+def quadDom (B : Bnds) (q : Quad) (x : Asg) : Prop := ∀ t ∈ q, inDom B x t.2.1 ∧ inDom B x t.2.2
+
+/-- `PropagateResult2QuadTerms` as coded is sound when all coefficients are nonnegative.
+FULL STATEMENT (fails, see `C01_counterexample_quadterms_ctx`): the same without `hc`. -/
+theorem C01_ctx_sound_quadterms_partial (B : Bnds) (ctx : Ctx) (q : Quad) (a f : Asg)
+    (hc : ∀ t ∈ q, 0 ≤ t.1) (da : quadDom B q a) (df : quadDom B q f)
+    (h : ∀ p ∈ propQuad B ctx q, req p.2 (a p.1) (f p.1)) :
+    req ctx (evalQuad a q) (evalQuad f q) := by
+  induction q with
+  | nil => cases ctx <;> simp [req, evalQuad]
+  | cons t tl ih =>
+    obtain ⟨c, v, w⟩ := t
+    have hc0 : 0 ≤ c := hc (c, v, w) (by simp)
+    have iht := ih (fun t ht => hc t (by simp [ht])) (fun t ht => da t (by simp [ht]))
+      (fun t ht => df t (by simp [ht]))
+    by_cases hz : c = 0
+    · subst hz
+      have := iht (by simpa [propQuad] using h)
+      cases ctx <;> simp [req, evalQuad] at this ⊢ <;> grind
+    · have h' : ∀ p ∈ propQuad B ctx tl, req p.2 (a p.1) (f p.1) := by
+        intro p hp; apply h; simp [propQuad, hz, hp]
+      have hv : req (quadTermCtx B ctx v w) (a v) (f v) := by
+        apply h (v, quadTermCtx B ctx v w); simp [propQuad, hz]; split <;> simp
+      have hw : req (quadTermCtx B ctx v w) (a w) (f w) := by
+        by_cases e : v = w
+        · subst e; exact hv
+        · apply h (w, quadTermCtx B ctx v w); simp [propQuad, hz, e]
+      have dav := da (c, v, w) (by simp)
+      have dfv := df (c, v, w) (by simp)
+      have hp := prod_req B ctx v w a f dav.1 dav.2 dfv.1 dfv.2 hv hw
+      have it := iht h'
+      cases ctx <;> simp only [req, evalQuad] at hp it ⊢
+      · have := Rat.mul_le_mul_of_nonneg_left hp hc0; grind
+      · have := Rat.mul_le_mul_of_nonneg_left hp hc0; grind
+      · rw [hp, it]
+
+/-- DESIGN A0: the rule as coded ignores the sign of the coefficient.
+`x ∈ [0,5]` (var 0), `v ∈ [0,3]` (var 1), body `-(x·v)` in positive context (constraint `-(x·v) ≥ -4`):
+both factors receive *positive* context, so `v` may be under-estimated (`a v = 0 ≤ f v = 3`), yet the
+body value `0` is not `≤` the true body value `-15`. -/
+theorem C01_counterexample_quadterms_ctx :
+    ∃ (B : Bnds) (q : Quad) (a f : Asg),
+      quadDom B q a ∧ quadDom B q f ∧
+      (∀ p ∈ propQuad B .pos q, req p.2 (a p.1) (f p.1)) ∧
+      ¬ req .pos (evalQuad a q) (evalQuad f q) := by
+  refine ⟨fun v => if v = 0 then { lb := some 0, ub := some 5 } else { lb := some 0, ub := some 3 },
+    [(-1, 0, 1)], fun v => if v = 0 then 5 else 0, fun v => if v = 0 then 5 else 3, ?_, ?_, ?_, ?_⟩
+  · intro t ht; simp at ht; subst ht
+    simp [inDom, VarInfo.admits]; grind
+  · intro t ht; simp at ht; subst ht
+    simp [inDom, VarInfo.admits]; grind
+  · have hne : ¬ ((-1 : Rat) = 0) := by grind
+    have h0 : (0 : Rat) ≤ 0 := by grind
+    intro p hp
+    simp [propQuad, hne, quadTermCtx, lbGE0] at hp
+    rcases hp with hp | hp <;> subst hp <;> simp [req] <;> grind
+  · simp [req, evalQuad]; grind
+
+/-- the proposed repair (coefficient sign first) is sound for all coefficients -/
+theorem C01_ctx_sound_quadterms_fixed (B : Bnds) (ctx : Ctx) (q : Quad) (a f : Asg)
+    (da : quadDom B q a) (df : quadDom B q f)
+    (h : ∀ p ∈ propQuadFixed B ctx q, req p.2 (a p.1) (f p.1)) :
+    req ctx (evalQuad a q) (evalQuad f q) := by
+  induction q with
+  | nil => cases ctx <;> simp [req, evalQuad]
+  | cons t tl ih =>
+    obtain ⟨c, v, w⟩ := t
+    have iht := ih (fun t ht => da t (by simp [ht])) (fun t ht => df t (by simp [ht]))
+    by_cases hz : c = 0
+    · subst hz
+      have := iht (by simpa [propQuadFixed] using h)
+      cases ctx <;> simp [req, evalQuad] at this ⊢ <;> grind
+    · have h' : ∀ p ∈ propQuadFixed B ctx tl, req p.2 (a p.1) (f p.1) := by
+        intro p hp; apply h; simp [propQuadFixed, hz, hp]
+      have hv : req (quadTermCtx B (if 0 ≤ c then ctx else ctx.flip) v w) (a v) (f v) := by
+        apply h (v, quadTermCtx B (if 0 ≤ c then ctx else ctx.flip) v w); simp [propQuadFixed, hz]; split <;> simp
+      have hw : req (quadTermCtx B (if 0 ≤ c then ctx else ctx.flip) v w) (a w) (f w) := by
+        by_cases e : v = w
+        · subst e; exact hv
+        · apply h (w, quadTermCtx B (if 0 ≤ c then ctx else ctx.flip) v w); simp [propQuadFixed, hz, e]
+      have dav := da (c, v, w) (by simp)
+      have dfv := df (c, v, w) (by simp)
+      have hp := prod_req B _ v w a f dav.1 dav.2 dfv.1 dfv.2 hv hw
+      have it := iht h'
+      by_cases hc0 : 0 ≤ c
+      · simp only [hc0, if_true] at hp
+        cases ctx <;> simp only [req, evalQuad] at hp it ⊢
+        · have := Rat.mul_le_mul_of_nonneg_left hp hc0; grind
+        · have := Rat.mul_le_mul_of_nonneg_left hp hc0; grind
+        · rw [hp, it]
+      · simp only [hc0, if_false] at hp
+        have hneg : 0 ≤ -c := by grind
+        cases ctx <;> simp only [req, evalQuad, Ctx.flip] at hp it ⊢
+        · have := Rat.mul_le_mul_of_nonneg_left hp hneg; grind
+        · have := Rat.mul_le_mul_of_nonneg_left hp hneg; grind
+        · rw [hp, it]
+
+
+
+theorem req_of_plus {ctx : Ctx} {r v : Rat} (h : req ctx.plus r v) : req ctx r v := by
+  cases ctx <;> simp [req, Ctx.plus] at h ⊢ <;> exact h
+
+theorem C01_ctx_sound_not (ctx : Ctx) (v : Var) (a f : Asg)
+    (h : ∀ p ∈ propNot ctx v, req p.2 (a p.1) (f p.1)) :
+    req ctx (Fun.val a (.not v)) (Fun.val f (.not v)) := by
+  have := h (v, ctx.flip) (by simp [propNot])
+  cases ctx <;> simp [req, Ctx.flip, Fun.val] at this ⊢ <;> grind
+
+def bin (x : Asg) (vs : List Var) : Prop := ∀ v ∈ vs, x v = 0 ∨ x v = 1
+
+theorem all_mono (a f : Asg) (args : List Var) (hf : bin f args)
+    (h : ∀ v ∈ args, a v ≤ f v) (ha : args.all (fun v => a v == 1) = true) :
+    args.all (fun v => f v == 1) = true := by
+  rw [List.all_eq_true] at ha ⊢
+  intro v hv
+  have h1 : a v = 1 := by simpa using ha v hv
+  have := h v hv
+  rcases hf v hv with h0 | h0
+  · rw [h0, h1] at this; exact absurd this (by grind)
+  · simp [h0]
+
+theorem any_mono (a f : Asg) (args : List Var) (hf : bin f args)
+    (h : ∀ v ∈ args, a v ≤ f v) (ha : args.any (fun v => a v == 1) = true) :
+    args.any (fun v => f v == 1) = true := by
+  rw [List.any_eq_true] at ha ⊢
+  obtain ⟨v, hv, h1⟩ := ha
+  have h1 : a v = 1 := by simpa using h1
+  refine ⟨v, hv, ?_⟩
+  have := h v hv
+  rcases hf v hv with h0 | h0
+  · rw [h0, h1] at this; exact absurd this (by grind)
+  · simp [h0]
+
+theorem all_congr' (a f : Asg) (args : List Var) (h : ∀ v ∈ args, a v = f v) :
+    args.all (fun v => a v == 1) = args.all (fun v => f v == 1) := by
+  induction args with
+  | nil => rfl
+  | cons b t ih => simp [List.all_cons, h b (by simp), ih (fun v hv => h v (by simp [hv]))]
+
+theorem any_congr' (a f : Asg) (args : List Var) (h : ∀ v ∈ args, a v = f v) :
+    args.any (fun v => a v == 1) = args.any (fun v => f v == 1) := by
+  induction args with
+  | nil => rfl
+  | cons b t ih => simp [List.any_cons, h b (by simp), ih (fun v hv => h v (by simp [hv]))]
+
+theorem b2r_mono {p q : Prop} [Decidable p] [Decidable q] (h : p → q) : b2r p ≤ b2r q := by
+  unfold b2r; split <;> split <;> first | grind | (exfalso; grind)
+
+theorem C01_ctx_sound_and (ctx : Ctx) (args : List Var) (a f : Asg) (ha : bin a args) (hf : bin f args)
+    (h : ∀ p ∈ propAnd ctx args, req p.2 (a p.1) (f p.1)) :
+    req ctx (Fun.val a (.and args)) (Fun.val f (.and args)) := by
+  have h' : ∀ v ∈ args, req ctx.plus (a v) (f v) := fun v hv => h (v, ctx.plus) (by simp [propAnd]; exact hv)
+  cases ctx <;> simp only [req, Ctx.plus, Fun.val] at h' ⊢
+  · exact b2r_mono (all_mono a f args hf h')
+  · exact b2r_mono (all_mono f a args ha h')
+  · rw [all_congr' a f args h']
+
+theorem C01_ctx_sound_or (ctx : Ctx) (args : List Var) (a f : Asg) (ha : bin a args) (hf : bin f args)
+    (h : ∀ p ∈ propOr ctx args, req p.2 (a p.1) (f p.1)) :
+    req ctx (Fun.val a (.or args)) (Fun.val f (.or args)) := by
+  have h' : ∀ v ∈ args, req ctx.plus (a v) (f v) := fun v hv => h (v, ctx.plus) (by simp [propOr]; exact hv)
+  cases ctx <;> simp only [req, Ctx.plus, Fun.val] at h' ⊢
+  · exact b2r_mono (any_mono a f args hf h')
+  · exact b2r_mono (any_mono f a args ha h')
+  · rw [any_congr' a f args h']
+
+theorem C01_ctx_sound_impl (ctx : Ctx) (c t e : Var) (a f : Asg)
+    (h : ∀ p ∈ propImpl ctx c t e, req p.2 (a p.1) (f p.1)) :
+    req ctx (Fun.val a (.impl c t e)) (Fun.val f (.impl c t e)) := by
+  have hc := h (c, .mix) (by simp [propImpl])
+  have ht := h (t, ctx.plus) (by simp [propImpl])
+  have he := h (e, ctx.plus) (by simp [propImpl])
+  simp only [req] at hc
+  cases ctx <;> simp only [req, Ctx.plus, Fun.val, hc] at ht he ⊢ <;> split <;> assumption
+
+theorem optGE_dom {B : Bnds} {x y : Asg} {t e : Var} (h : optGE (B t).lb (B e).ub = true)
+    (dt : inDom B x t) (de : inDom B y e) : y e ≤ x t := by
+  unfold optGE at h
+  cases hl : (B t).lb with
+  | none => simp [hl] at h
+  | some l =>
+    cases hu : (B e).ub with
+    | none => simp [hl, hu] at h
+    | some u =>
+      simp [hl, hu] at h
+      have := dt.1 l hl
+      have := de.2.1 u hu
+      grind
+
+/-- if-then-else: the condition gets `+ctx`/`-ctx` when the bounds order the branches, else mix -/
+theorem C01_ctx_sound_ifthen (B : Bnds) (ctx : Ctx) (c t e : Var) (a f : Asg)
+    (hac : a c = 0 ∨ a c = 1) (hfc : f c = 0 ∨ f c = 1)
+    (dat : inDom B a t) (dae : inDom B a e) (dft : inDom B f t) (dfe : inDom B f e)
+    (h : ∀ p ∈ propIfThen B ctx c t e, req p.2 (a p.1) (f p.1)) :
+    req ctx (Fun.val a (.ifthen c t e)) (Fun.val f (.ifthen c t e)) := by
+  have ht := h (t, ctx.plus) (by simp [propIfThen])
+  have he := h (e, ctx.plus) (by simp [propIfThen])
+  have hc := h (c, _) (by simp only [propIfThen]; exact List.mem_cons_self)
+  cases ctx
+  · simp [req]
+  · -- pos
+    simp only [req, Ctx.plus, Fun.val] at ht he ⊢
+    by_cases o1 : optGE (B t).lb (B e).ub = true
+    · simp [o1, req, Ctx.plus] at hc
+      have k := optGE_dom o1 dft dfe
+      rcases hac with h0 | h0 <;> rcases hfc with h1 | h1 <;> simp [h0, h1] at hc ⊢ <;> grind
+    · by_cases o2 : optGE (B e).lb (B t).ub = true
+      · simp [o1, o2, req, Ctx.flip] at hc
+        have k := optGE_dom o2 dfe dft
+        rcases hac with h0 | h0 <;> rcases hfc with h1 | h1 <;> simp [h0, h1] at hc ⊢ <;> grind
+      · simp [o1, o2, req] at hc
+        rw [hc]; split <;> assumption
+  · -- neg
+    simp only [req, Ctx.plus, Fun.val] at ht he ⊢
+    by_cases o1 : optGE (B t).lb (B e).ub = true
+    · simp [o1, req, Ctx.plus] at hc
+      have k := optGE_dom o1 dat dae
+      rcases hac with h0 | h0 <;> rcases hfc with h1 | h1 <;> simp [h0, h1] at hc ⊢ <;> grind
+    · by_cases o2 : optGE (B e).lb (B t).ub = true
+      · simp [o1, o2, req, Ctx.flip] at hc
+        have k := optGE_dom o2 dae dat
+        rcases hac with h0 | h0 <;> rcases hfc with h1 | h1 <;> simp [h0, h1] at hc ⊢ <;> grind
+      · simp [o1, o2, req] at hc
+        rw [hc]; split <;> assumption
+  · simp [req, Ctx.plus] at ht he hc
+    simp [req, Fun.val, ht, he, hc]
+
+
+
+/-- conditional comparisons `res ⇔ body (k) rhs` -/
+theorem C01_ctx_sound_condlin (k : Cmp5) (ctx : Ctx) (body : Lin) (rhs : Rat) (a f : Asg)
+    (h : ∀ p ∈ propCondLin k ctx body, req p.2 (a p.1) (f p.1)) :
+    req ctx (Fun.val a (.condLin k body rhs)) (Fun.val f (.condLin k body rhs)) := by
+  have hb := C01_ctx_sound_linterms _ body a f h
+  cases k <;> cases ctx <;> simp only [req, Ctx.flip, Fun.val, Cmp5.holds] at hb ⊢ <;>
+    first
+    | trivial
+    | (apply b2r_mono; intro _; grind)
+    | (rw [hb])
+
+
+/-- `PropagateResult(LinearFunctionalConstraint&)` hands `+ctx` into the terms -/
+theorem C01_ctx_sound_lfc (ctx : Ctx) (body : Lin) (c : Rat) (a f : Asg)
+    (h : ∀ p ∈ propLFC ctx body, req p.2 (a p.1) (f p.1)) :
+    req ctx (Fun.val a (.affine body c)) (Fun.val f (.affine body c)) := by
+  have := req_of_plus (C01_ctx_sound_linterms ctx.plus body a f h)
+  cases ctx <;> simp only [req, Fun.val] at this ⊢ <;> grind
+
+/-- root range constraint `lb ≤ body ≤ ub`: if the delivered body value relates to the true one as the
+chosen context requires, then feasibility of the delivered value implies feasibility of the true one -/
+theorem C01_ctx_sound_range (body : Lin) (lb ub : Option Rat) (a f : Asg)
+    (hlb : ∀ l, lb = some l → -pracInf < l) (hub : ∀ u, ub = some u → u < pracInf)
+    (h : ∀ p ∈ propRangeLin body lb ub, req p.2 (a p.1) (f p.1))
+    (hfeas : inRange lb ub (evalLin a body)) : inRange lb ub (evalLin f body) := by
+  have hb := C01_ctx_sound_linterms _ body a f h
+  unfold rangeCtx at hb
+  cases lb with
+  | none =>
+    simp only [if_true, req] at hb
+    simp only [inRange] at hfeas ⊢
+    refine ⟨by simp, ?_⟩
+    intro u hu; have := hfeas.2 u hu; grind
+  | some l =>
+    have hl : ¬ l ≤ -pracInf := by have := hlb l rfl; grind
+    cases ub with
+    | none =>
+      simp [hl, req] at hb
+      simp only [inRange] at hfeas ⊢
+      refine ⟨?_, by simp⟩
+      intro l' hl'; have := hfeas.1 l' hl'; grind
+    | some u =>
+      have hu : ¬ pracInf ≤ u := by have := hub u rfl; grind
+      simp [hl, hu, req] at hb
+      rw [← hb]; exact hfeas
+
+/-!
+## Stage 2 (NOT proved here): composition
+
+`C01_validator_sound : validTrace t = true → ProjEquiv (orig t) (delivered t)` (DESIGN §5 C01).
+What exists: every conversion step listed above is locally exact for the relation its stored context
+asks for (`C01_gadget_*`), and every propagation rule hands its arguments contexts that justify the
+parent's context (`C01_ctx_sound_*`, with the recorded exception `C01_counterexample_quadterms_ctx`).
+What is missing for the whole-model theorem:
+* a `Trace` type + `validTrace` (each step is an instance of its gadget with the logged context and
+  bounds; every bridged functional constraint was converted in every direction of its *final* context —
+  the late-context defect A19(b) lives here; bounds used by big-M steps are implied by final bounds);
+* `Fun.val` congruence (`f.val` reads only the variables of `f`) to chain steps over growing variable sets;
+* the induction over steps in reverse creation order and the objective clause;
+* gadgets not yet modelled: alldiff/unary encoding, complementarity, PL→SOS2, SOS2→ZZI, pow, general
+  products, min/max non-convex part (modelled, correspondence-checked, theorem not yet proved).
+Until then whole-model equivalence is *validated per run* by checks/c01.py (projection-equivalence
+oracle on generated models), not proved.
+-/
+
 end MpVerif.C01
